@@ -23,6 +23,8 @@ func (rr *SIG) Sign(k crypto.Signer, m *Msg) ([]byte, error) {
 
 	rr.Hdr = RR_Header{Name: ".", Rrtype: TypeSIG, Class: ClassANY, Ttl: 0}
 	rr.OrigTtl, rr.TypeCovered, rr.Labels = 0, 0, 0
+	// The signature field of the RDATA that is hashed is empty, also when rr was used to sign before.
+	rr.Signature = ""
 
 	// PackBuffer only uses our buffer when it has room for the uncompressed
 	// message (plus one), whether or not m.Compress is set.
